@@ -212,3 +212,25 @@ Definition in_bounds {A} (a : array2d A) (x y : Z) : Prop :=
 (* is (x,y) inside the inclusive rectangle spanned by the two corners, whichever way round *)
 Definition in_rect (x1 y1 x2 y2 x y : Z) : bool :=
   (Z.min x1 x2 <=? x) && (x <=? Z.max x1 x2) && (Z.min y1 y2 <=? y) && (y <=? Z.max y1 y2).
+
+(* A whole sequence of Set calls (x, y, v), stopping at the first panic; and the
+   last value such a sequence stores at (x, y), if any. *)
+Fixpoint set_all {A} (a : array2d A) (ops : list (Z * Z * A)) : amut :=
+  match ops with
+  | [] => (a, None)
+  | (x, y, v) :: rest =>
+      match set a x y v with
+      | (a', None) => set_all a' rest
+      | (a', Some k) => (a', Some k)
+      end
+  end.
+
+Fixpoint last_stored {A} (ops : list (Z * Z * A)) (x y : Z) : option A :=
+  match ops with
+  | [] => None
+  | (x', y', v) :: rest =>
+      match last_stored rest x y with
+      | Some u => Some u
+      | None => if (x' =? x) && (y' =? y) then Some v else None
+      end
+  end.
